@@ -116,6 +116,13 @@ Ltac bsplit :=
 Lemma level_of_cmp op : binding_power (cmp_tok op) = lvl_cmp.
 Proof. destruct op; reflexivity. Qed.
 
+Lemma npos_lchild e l : lchild e = Some l -> npos e = npos l.
+Proof.
+  destruct e as [q name | | lv | s | x | es | kvs | fname args | x | [l0|] i | [l0|] a b c r | [l0|] r | [l0|] r
+                 | [l0|] c r | [l0|] r | l0 r | l0 r | l0 r | l0 r | op l0 r]; cbn [lchild]; intros H; try discriminate;
+    inversion H; subst; reflexivity.
+Qed.
+
 (* what the precedence rules give for the left operand, and the operator token that follows it *)
 Lemma spine_facts e l : lchild e = Some l -> wp e = true ->
   wp l = true /\ lmin e <= lmin l /\ (esize l < esize e)%nat /\
@@ -160,7 +167,7 @@ Definition rlr (r : rhs) (p : Z) : Z :=
 Definition rhs_okb (r : rhs) (p : Z) : bool :=
   match r with
   | RNone => true
-  | RDot x => wp x && (p <? lmin x) && match head x with HIdent | HQuoted | HMulti | HStar => true | _ => false end
+  | RDot x => wp x && (p <? lmin x) && match head x with HIdent | HQuoted | HMulti | HMultiStar | HStar => true | _ => false end
   | RBrk x => wp x && (p <? lmin x) && match head x with HBracket | HFilter => true | _ => false end
   end.
 Definition rsz (r : rhs) : nat := match r with RNone => 0%nat | RDot x => esize x | RBrk x => esize x end.
@@ -228,8 +235,7 @@ Lemma wp_lhead : forall e, wp e = true -> wp (lhead e) = true.
 Proof.
   fix IH 1. intros e Hw. destruct e as [q name | | lv | s | x | es | kvs | fname args | x | [l|] i | [l|] a b c r | [l|] r | [l|] r
                  | [l|] c r | [l|] r | l r | l r | l r | l r | op l r]; cbn [lhead]; try exact Hw;
-    cbn [wp] in Hw; bsplit; try (apply IH; assumption).
-  cbn [wp]. assumption.
+    cbn [wp] in Hw; bsplit; try (apply IH; assumption); try reflexivity.
 Qed.
 
 Lemma esize_lhead : forall e, (esize (lhead e) <= esize e)%nat.
@@ -283,7 +289,7 @@ Proof.
   destruct (render_lhead e) as [tl Hr]. rewrite (head_lhead e). pose proof (lchild_lhead e) as Hlc. rewrite Hr.
   destruct (lhead e) as [q name | | lv | s0 | x0 | es | kvs | fname args | x0 | [l|] i0 | [l|] a b c r | [l|] r | [l|] r
                  | [l|] c r | [l|] r | l r | l r | l r | l r | op l r]; cbn [head lchild] in *; try exact I; try discriminate;
-    try (destruct q; exact I); cbn [render app]; rewrite <- ?app_assoc; cbn [app]; eexists; reflexivity.
+    try (destruct q; exact I); try (destruct (star_list es); exact I); cbn [render app]; rewrite <- ?app_assoc; cbn [app]; eexists; reflexivity.
 Qed.
 
 Lemma rrhs_first r p : rhs_okb r p = true ->
@@ -346,9 +352,9 @@ Proof.
   - rewrite Hl2. exists (tk ty v), tl. split; [exact Hr | exact Hop].
 Qed.
 
-Definition slice_tokens (a b c : option Z) : list token :=
+Definition slice_tokens (a b : option Z) (c : option (option Z)) : list token :=
   opt_num a ++ [tk tColon (str ":")] ++ opt_num b ++
-  (match c with Some _ => [tk tColon (str ":")] ++ opt_num c | None => [] end) ++ [tk tRbracket (str "]")].
+  (match c with Some o => [tk tColon (str ":")] ++ opt_num o | None => [] end) ++ [tk tRbracket (str "]")].
 
 (* ---- the spelling of each form, with the right-hand side as rrhs ---- *)
 Definition olhs (l : option expr) : list token := match l with Some x => render x | None => [] end.
@@ -373,7 +379,7 @@ Proof. destruct r; reflexivity. Qed.
 
 Lemma rhs_okb_of r p : (match r with
                         | RNone => true
-                        | RDot x => wp x && (p <? lmin x) && match head x with HIdent | HQuoted | HMulti | HStar => true | _ => false end
+                        | RDot x => wp x && (p <? lmin x) && match head x with HIdent | HQuoted | HMulti | HMultiStar | HStar => true | _ => false end
                         | RBrk x => wp x && (p <? lmin x) && match head x with HBracket | HFilter => true | _ => false end
                         end) = rhs_okb r p.
 Proof. destruct r; reflexivity. Qed.
@@ -403,6 +409,17 @@ Proof.
     destruct Hfirst as [->|[->| ->]]; split; discriminate.
 Qed.
 
+(* what the parser reads from the value of a token: a number token counts by its
+   integer, a literal token by the JSON value of its text, names and raw strings
+   by their bytes, every other token by its type alone *)
+Definition veq (ty : tokType) (a b : bytes) : Prop :=
+  match ty with
+  | tNumber => atoi a = atoi b
+  | tJSONLiteral => json_unmarshal a = json_unmarshal b
+  | tUnquotedIdentifier | tQuotedIdentifier | tStringLiteral => a = b
+  | _ => True
+  end.
+
 Section Tokens.
 Variable ts : list token.
 
@@ -423,7 +440,7 @@ Definition atF {A} (f : (Z -> nat -> outcome (node * nat)) -> (node -> Z -> nat 
 
 (* ---- tokens ---- *)
 Definition tokat (i : nat) (ty : tokType) (v : bytes) : Prop :=
-  exists t, nth_error ts i = Some t /\ ttype t = ty /\ tvalue t = v.
+  exists t, nth_error ts i = Some t /\ ttype t = ty /\ veq ty (tvalue t) v.
 Definition Spell (i : nat) (l : list token) : Prop :=
   forall k t, nth_error l k = Some t -> tokat (i + k) (ttype t) (tvalue t).
 
@@ -452,7 +469,7 @@ Proof.
   intros [t [Ht [Hty _]]]. unfold lookahead, lookaheadToken, nth_or_panic. rewrite Ht. cbn. rewrite Hty. reflexivity.
 Qed.
 
-Lemma tokat_token i ty v : tokat i ty v -> exists t, lookaheadToken ts i 0 = Ok t /\ ttype t = ty /\ tvalue t = v.
+Lemma tokat_token i ty v : tokat i ty v -> exists t, lookaheadToken ts i 0 = Ok t /\ ttype t = ty /\ veq ty (tvalue t) v.
 Proof.
   intros [t [Ht [Hty Hv]]]. exists t. unfold lookaheadToken, nth_or_panic. rewrite Nat.add_0_r, Ht. auto.
 Qed.
@@ -504,7 +521,7 @@ Definition follow (j : nat) (lvl : Z) : Prop := exists fty fv, tokat j fty fv /\
 
 (* having read e (and nothing more), the parser is where it would be had it been handed compile e *)
 Definition StE (e : expr) : Prop :=
-  forall bp i r, wp e = true -> bp < lmin e -> Spell i (render e) -> follow (i + nE e) (rl e) ->
+  forall bp i r, wp e = true -> npos e = true -> bp < lmin e -> Spell i (render e) -> follow (i + nE e) (rl e) ->
     CE (compile e) bp (i + nE e) r -> PE bp i r.
 
 (* one operator of the left spine *)
@@ -519,9 +536,9 @@ Proof. intros [ty [v [H1 H2]]] Hab. exists ty, v. split; [exact H1 | lia]. Qed.
 (* an expression with a left operand: read the operand, then take the step *)
 Lemma StE_from_step e l : lchild e = Some l -> StE l -> StStep e -> StE e.
 Proof.
-  intros Hl HEl Hstep bp i r Hw Hbp Hsp Hf Hce.
+  intros Hl HEl Hstep bp i r Hw Hnp Hbp Hsp Hf Hce.
   destruct (spine_facts e l Hl Hw) as [Hwl [Hlm [_ [ty [v [tl [Hr [Hp _]]]]]]]].
-  apply (HEl bp i r Hwl ltac:(lia)).
+  apply (HEl bp i r Hwl ltac:(rewrite <- (npos_lchild e l Hl); exact Hnp) ltac:(lia)).
   - rewrite Hr in Hsp. apply Spell_app in Hsp. apply Hsp.
   - rewrite Hr in Hsp. apply Spell_app in Hsp as [_ Hsp]. apply Spell_cons in Hsp as [Ht _].
     exists ty, v. split; [exact Ht | exact Hp].
@@ -547,7 +564,7 @@ Proof. intros H. apply Spell_cons in H as [[t' [Ht _]] _]. apply nth_error_Some.
 
 Lemma tokat_number i z : tokat i tNumber (int_text z) -> in_int64 z = true ->
   exists t, lookaheadToken ts i 0 = Ok t /\ atoi (tvalue t) = Some z.
-Proof. intros H Hz. destruct (tokat_token _ _ _ H) as [t [H1 [_ H3]]]. exists t. rewrite H3, atoi_int_text by exact Hz. auto. Qed.
+Proof. intros H Hz. destruct (tokat_token _ _ _ H) as [t [H1 [_ H3]]]. exists t. cbn [veq] in H3. rewrite H3, atoi_int_text by exact Hz. auto. Qed.
 
 Lemma parse_index i z : in_int64 z = true ->
   Spell i [tk tNumber (int_text z); tk tRbracket (str "]")] ->
@@ -610,9 +627,9 @@ Ltac spell_facts H :=
        match type of T5 with tokat (?i + 5) _ _ => replace (i + 5)%nat with (S (S (S (S (S i))))) in T5 by lia end).
 
 Lemma parse_slice i a b c :
-  opt_int64 a = true -> opt_int64 b = true -> opt_int64 c = true ->
+  opt_int64 a = true -> opt_int64 b = true -> opt_int64 (cjoin c) = true ->
   Spell i (slice_tokens a b c) ->
-  parseIndexExpression ts i = Ok (Node ASTSlice (NVSlice a b c) [], (i + length (slice_tokens a b c))%nat).
+  parseIndexExpression ts i = Ok (Node ASTSlice (NVSlice a b (cjoin c)) [], (i + length (slice_tokens a b c))%nat).
 Proof.
   intros Ha Hb Hc H.
   pose proof (Spell_length i (slice_tokens a b c)) as Hlen.
@@ -622,7 +639,7 @@ Proof.
   destruct Hfuel as [g0 Hg0].
   unfold parseIndexExpression, parseSliceExpression. rewrite Hg0. clear Hlen Hne Hg0.
   unfold slice_tokens in *.
-  destruct a as [za|], b as [zb|], c as [zc|]; cbn [opt_num app length Nat.add] in *; cbn [opt_int64] in *; spell_facts H.
+  destruct a as [za|], b as [zb|], c as [[zc|]|]; cbn [cjoin opt_num app length Nat.add] in *; cbn [opt_int64] in *; spell_facts H.
   all: match type of T0 with tokat _ ?ty ?v => rewrite (tokat_lookahead i 0 ty v) by (rewrite Nat.add_0_r; exact T0) end; cbn [bind].
   all: try (rewrite (tokat_lookahead i 1 tColon (str ":")) by (rewrite Nat.add_1_r; exact T1); cbn [bind]).
   all: change (tok_eqb tColon tColon) with true; change (tok_eqb tNumber tColon) with false; cbn iota; cbn [bind].
@@ -640,10 +657,10 @@ Hypothesis IHE : forall e, (esize e < n)%nat -> StE e.
 Hypothesis IHStep : forall e, (esize e < n)%nat -> StStep e.
 
 (* a sub-expression read in a context of level bp, up to a token that does not continue it *)
-Lemma PE_whole e bp i : (esize e < n)%nat -> wp e = true -> bp < lmin e -> Spell i (render e) ->
+Lemma PE_whole e bp i : (esize e < n)%nat -> wp e = true -> npos e = true -> bp < lmin e -> Spell i (render e) ->
   follow (i + nE e) (Z.min bp (rl e)) -> PE bp i (compile e, (i + nE e)%nat).
 Proof.
-  intros Hs Hw Hbp Hsp [fty [fv [Ht Hp]]]. apply (IHE e Hs bp i _ Hw Hbp Hsp).
+  intros Hs Hw Hnp Hbp Hsp [fty [fv [Ht Hp]]]. apply (IHE e Hs bp i _ Hw Hnp Hbp Hsp).
   - exists fty, fv. split; [exact Ht | lia].
   - apply (CE_stop _ _ _ fty fv Ht). lia.
 Qed.
@@ -658,7 +675,7 @@ Proof. intros Ht Hp. exists ty, v. split; [exact Ht|]. pose proof (rl_pos x). li
 
 (* ---- multi-select lists ---- *)
 Lemma msl_ok : forall es acc i g, es <> [] ->
-  (forall x, In x es -> (esize x < n)%nat /\ wp x = true) ->
+  (forall x, In x es -> (esize x < n)%nat /\ wp x = true /\ npos x = true) ->
   Spell i (sep_by [tk tComma (str ",")] (map render es) ++ [tk tRbracket (str "]")]) ->
   (length es <= g)%nat ->
   exists F, msl_loop ts (PEf F) g acc i =
@@ -666,19 +683,19 @@ Lemma msl_ok : forall es acc i g, es <> [] ->
                 (i + length (sep_by [tk tComma (str ",")] (map render es) ++ [tk tRbracket (str "]")]))%nat).
 Proof.
   induction es as [|x es IH]; intros acc i g Hne Hall Hsp Hg; [congruence|].
-  destruct (Hall x (or_introl eq_refl)) as [Hsz Hw].
+  destruct (Hall x (or_introl eq_refl)) as [Hsz [Hw Hnp]].
   destruct g as [|g]; [cbn in Hg; lia|].
   destruct es as [|y es'].
   - (* the last element *)
     cbn [map sep_by] in *. apply Spell_app in Hsp as [Hx Hrb]. apply Spell_cons in Hrb as [Hrb _]. cbn [ttype tvalue tk] in Hrb.
-    destruct (PE_whole x 0 i Hsz Hw (lmin_pos x) Hx (follow_close _ _ _ x Hrb eq_refl)) as [F HF].
+    destruct (PE_whole x 0 i Hsz Hw Hnp (lmin_pos x) Hx (follow_close _ _ _ x Hrb eq_refl)) as [F HF].
     unfold nE in *. exists F. cbn [msl_loop]. change (bp_of site_parseMultiSelectList_parseExpression tUnknown 0) with 0. rewrite HF. cbn [bind]. rewrite (tokat_current _ _ _ Hrb). cbn [bind].
     change (tok_eqb tRbracket tRbracket) with true. cbn iota. rewrite (tokat_match _ _ _ Hrb). cbn [bind rev map].
     rewrite app_length. cbn [length]. f_equal. f_equal. lia.
   - (* an element followed by a comma *)
     cbn [map sep_by] in Hsp. rewrite <- !app_assoc in Hsp. apply Spell_app in Hsp as [Hx Hrest].
     cbn [app] in Hrest. apply Spell_cons in Hrest as [Hc Hrest]. cbn [ttype tvalue tk] in Hc.
-    destruct (PE_whole x 0 i Hsz Hw (lmin_pos x) Hx (follow_close _ _ _ x Hc eq_refl)) as [F1 HF1].
+    destruct (PE_whole x 0 i Hsz Hw Hnp (lmin_pos x) Hx (follow_close _ _ _ x Hc eq_refl)) as [F1 HF1].
     destruct (IH (compile x :: acc) (S (i + nE x)) g ltac:(discriminate)
                  (fun z Hz => Hall z (or_intror Hz)) Hrest ltac:(cbn [length] in *; lia)) as [F2 HF2].
     unfold nE in *. exists (Nat.max F1 F2). cbn [msl_loop]. change (bp_of site_parseMultiSelectList_parseExpression tUnknown 0) with 0.
@@ -697,7 +714,7 @@ Definition kv_node (kv : bool * bytes * expr) : node :=
   Node ASTKeyValPair (NVStr (snd (fst kv))) [compile (snd kv)].
 
 Lemma msh_ok : forall kvs acc i g, kvs <> [] ->
-  (forall kv, In kv kvs -> (esize (snd kv) < n)%nat /\ wp (snd kv) = true) ->
+  (forall kv, In kv kvs -> (esize (snd kv) < n)%nat /\ wp (snd kv) = true /\ npos (snd kv) = true) ->
   Spell i (sep_by [tk tComma (str ",")] (map kv_tokens kvs) ++ [tk tRbrace (str "}")]) ->
   (length kvs <= g)%nat ->
   exists F, msh_loop ts (PEf F) g acc i =
@@ -705,7 +722,7 @@ Lemma msh_ok : forall kvs acc i g, kvs <> [] ->
                 (i + length (sep_by [tk tComma (str ",")] (map kv_tokens kvs) ++ [tk tRbrace (str "}")]))%nat).
 Proof.
   induction kvs as [|kv kvs IH]; intros acc i g Hne Hall Hsp Hg; [congruence|].
-  destruct (Hall kv (or_introl eq_refl)) as [Hsz Hw].
+  destruct (Hall kv (or_introl eq_refl)) as [Hsz [Hw Hnp]].
   destruct g as [|g]; [cbn in Hg; lia|].
   destruct kv as [[q key] x]. cbn [fst snd] in *.
   assert (Hkey : forall rest, Spell i (kv_tokens (q, key, x) ++ rest) ->
@@ -714,11 +731,11 @@ Proof.
                        match_ ts (S i) tColon = Ok (S (S i)) /\ Spell (S (S i)) (render x ++ rest)).
   { intros rest H. unfold kv_tokens in H. cbn [fst snd app] in H. apply Spell_cons in H as [H0 H]. apply Spell_cons in H as [H1 H].
     cbn [ttype tvalue tk] in *. destruct (tokat_token _ _ _ H0) as [kt [K1 [K2 K3]]]. exists kt.
-    repeat split; [exact K1 | exact K3 | apply (tokat_current _ _ _ H0) | apply (tokat_match _ _ _ H1) | exact H]. }
+    repeat split; [exact K1 | destruct q; exact K3 | apply (tokat_current _ _ _ H0) | apply (tokat_match _ _ _ H1) | exact H]. }
   destruct kvs as [|kv2 kvs'].
   - cbn [map sep_by] in *. destruct (Hkey _ Hsp) as [kt [K1 [K2 [K3 [K4 K5]]]]].
     apply Spell_app in K5 as [Hx Hrb]. apply Spell_cons in Hrb as [Hrb _]. cbn [ttype tvalue tk] in Hrb.
-    destruct (PE_whole x 0 (S (S i)) Hsz Hw (lmin_pos x) Hx (follow_close _ _ _ x Hrb eq_refl)) as [F HF].
+    destruct (PE_whole x 0 (S (S i)) Hsz Hw Hnp (lmin_pos x) Hx (follow_close _ _ _ x Hrb eq_refl)) as [F HF].
     unfold nE in *. exists F. cbn [msh_loop]. rewrite K1, K3. cbn [bind].
     assert ((tok_eqb (if q then tQuotedIdentifier else tUnquotedIdentifier) tUnquotedIdentifier
              || tok_eqb (if q then tQuotedIdentifier else tUnquotedIdentifier) tQuotedIdentifier) = true) as -> by (destruct q; reflexivity).
@@ -728,7 +745,7 @@ Proof.
     f_equal. f_equal. rewrite ?app_length; cbn [length]; rewrite ?app_length; cbn [length]; lia.
   - cbn [map sep_by] in Hsp. rewrite <- !app_assoc in Hsp. destruct (Hkey _ Hsp) as [kt [K1 [K2 [K3 [K4 K5]]]]].
     apply Spell_app in K5 as [Hx Hrest]. cbn [app] in Hrest. apply Spell_cons in Hrest as [Hc Hrest]. cbn [ttype tvalue tk] in Hc.
-    destruct (PE_whole x 0 (S (S i)) Hsz Hw (lmin_pos x) Hx (follow_close _ _ _ x Hc eq_refl)) as [F1 HF1].
+    destruct (PE_whole x 0 (S (S i)) Hsz Hw Hnp (lmin_pos x) Hx (follow_close _ _ _ x Hc eq_refl)) as [F1 HF1].
     destruct (IH (mk ASTKeyValPair (NVStr key) [compile x] :: acc) (S (S (S i) + nE x)) g ltac:(discriminate)
                  (fun z Hz => Hall z (or_intror Hz)) Hrest ltac:(cbn [length] in *; lia)) as [F2 HF2].
     unfold nE in *. exists (Nat.max F1 F2). cbn [msh_loop]. rewrite K1, K3. cbn [bind].
@@ -750,13 +767,13 @@ Definition arg_node (a : arg) : node :=
   match a with AExpr x => compile x | ARef x => N0 ASTExpRef [compile x] end.
 Definition arg_expr (a : arg) : expr := match a with AExpr x => x | ARef x => x end.
 
-Lemma arg_ok a i fty : (esize (arg_expr a) < n)%nat -> wp (arg_expr a) = true ->
+Lemma arg_ok a i fty : (esize (arg_expr a) < n)%nat -> wp (arg_expr a) = true -> npos (arg_expr a) = true ->
   Spell i (arg_tokens a) -> tokat (i + length (arg_tokens a)) fty (match fty with tComma => str "," | _ => str ")" end) ->
   binding_power fty = 0 ->
   exists F, parseFunctionArg ts (PEf F) i = Ok (arg_node a, (i + length (arg_tokens a))%nat).
 Proof.
-  intros Hsz Hw Hsp Hf Hp0. destruct a as [x|x]; cbn [arg_expr arg_tokens arg_node] in *.
-  - destruct (PE_whole x 0 i Hsz Hw (lmin_pos x) Hsp (follow_close _ _ _ x Hf Hp0)) as [F HF].
+  intros Hsz Hw Hnp Hsp Hf Hp0. destruct a as [x|x]; cbn [arg_expr arg_tokens arg_node] in *.
+  - destruct (PE_whole x 0 i Hsz Hw Hnp (lmin_pos x) Hsp (follow_close _ _ _ x Hf Hp0)) as [F HF].
     exists F. unfold parseFunctionArg.
     pose proof (render_first_not_expref x) as Hne. destruct (render x) as [|t0 tl] eqn:Er; [contradiction|].
     apply Spell_cons in Hsp as [H0 _]. rewrite (tokat_current _ _ _ H0). cbn [bind].
@@ -765,14 +782,14 @@ Proof.
     cbn [negb]. change (bp_of site_parseFunctionArg_parseExpression tUnknown 0) with 0. unfold nE in HF. rewrite Er in HF. exact HF.
   - apply Spell_cons in Hsp as [H0 Hx]. cbn [ttype tvalue tk length] in *.
     replace (i + S (length (render x)))%nat with (S i + length (render x))%nat in * by lia.
-    destruct (PE_whole x 0 (S i) Hsz Hw (lmin_pos x) Hx (follow_close _ _ _ x Hf Hp0)) as [F HF].
+    destruct (PE_whole x 0 (S i) Hsz Hw Hnp (lmin_pos x) Hx (follow_close _ _ _ x Hf Hp0)) as [F HF].
     exists F. unfold parseFunctionArg. rewrite (tokat_current _ _ _ H0). cbn [bind].
     change (tok_eqb tExpref tExpref) with true. cbn [negb].
     change (bp_of site_parseFunctionArg_parseExpression2 tUnknown 0) with 0. rewrite HF. reflexivity.
 Qed.
 
 Lemma args_ok : forall args acc i g, args <> [] ->
-  (forall a, In a args -> (esize (arg_expr a) < n)%nat /\ wp (arg_expr a) = true) ->
+  (forall a, In a args -> (esize (arg_expr a) < n)%nat /\ wp (arg_expr a) = true /\ npos (arg_expr a) = true) ->
   Spell i (sep_by [tk tComma (str ",")] (map arg_tokens args) ++ [tk tRparen (str ")")]) ->
   (length args <= g)%nat ->
   exists F, args_loop ts (PEf F) g acc i =
@@ -780,16 +797,16 @@ Lemma args_ok : forall args acc i g, args <> [] ->
                 (i + length (sep_by [tk tComma (str ",")] (map arg_tokens args)))%nat).
 Proof.
   induction args as [|a args IH]; intros acc i g Hne Hall Hsp Hg; [congruence|].
-  destruct (Hall a (or_introl eq_refl)) as [Hsz Hw].
+  destruct (Hall a (or_introl eq_refl)) as [Hsz [Hw Hnp]].
   destruct g as [|g]; [cbn in Hg; lia|].
   destruct args as [|b args'].
   - cbn [map sep_by] in *. apply Spell_app in Hsp as [Ha Hrp]. apply Spell_cons in Hrp as [Hrp _]. cbn [ttype tvalue tk] in Hrp.
-    destruct (arg_ok a i tRparen Hsz Hw Ha Hrp eq_refl) as [F HF].
+    destruct (arg_ok a i tRparen Hsz Hw Hnp Ha Hrp eq_refl) as [F HF].
     exists F. cbn [args_loop]. rewrite HF. cbn [bind]. rewrite (tokat_current _ _ _ Hrp). cbn [bind].
     change (tok_eqb tRparen tRparen) with true. cbn iota. cbn [rev map]. reflexivity.
   - cbn [map sep_by] in Hsp. rewrite <- !app_assoc in Hsp. apply Spell_app in Hsp as [Ha Hrest].
     cbn [app] in Hrest. apply Spell_cons in Hrest as [Hc Hrest]. cbn [ttype tvalue tk] in Hc.
-    destruct (arg_ok a i tComma Hsz Hw Ha Hc eq_refl) as [F1 HF1].
+    destruct (arg_ok a i tComma Hsz Hw Hnp Ha Hc eq_refl) as [F1 HF1].
     destruct (IH (arg_node a :: acc) (S (i + length (arg_tokens a))) g ltac:(discriminate)
                  (fun z Hz => Hall z (or_intror Hz)) Hrest ltac:(cbn [length] in *; lia)) as [F2 HF2].
     exists (Nat.max F1 F2). cbn [args_loop].
@@ -826,9 +843,9 @@ Lemma multiselect_list_ok es i :
 Proof.
   intros Hw Hsz Hsp. cbn [wp] in Hw. bsplit. cbn [render] in Hsp. apply Spell_cons in Hsp as [Hopen Hsp]. cbn [ttype tvalue tk] in Hopen.
   assert (Hne : es <> []) by (destruct es; [discriminate | discriminate]).
-  assert (Hall : forall x, In x es -> (esize x < n)%nat /\ wp x = true).
+  assert (Hall : forall x, In x es -> (esize x < n)%nat /\ wp x = true /\ npos x = true).
   { intros x Hx. split; [pose proof (esize_in_list x es Hx); cbn [esize] in Hsz; lia|].
-    match goal with Hf : forallb wp es = true |- _ => rewrite forallb_forall in Hf; apply Hf; exact Hx end. }
+    match goal with Hf : forallb _ es = true |- _ => rewrite forallb_forall in Hf; specialize (Hf x Hx); apply andb_true_iff in Hf; exact Hf end. }
   assert (Hlen : (length es <= S (length ts))%nat).
   { pose proof (sep_by_length render [tk tComma (str ",")] es render_nonempty) as L.
     pose proof (fun Hn => Spell_length (S i) _ Hn Hsp) as L2.
@@ -846,9 +863,9 @@ Lemma multiselect_hash_ok kvs i :
 Proof.
   intros Hw Hsz Hsp. cbn [wp] in Hw. bsplit. cbn [render] in Hsp. apply Spell_cons in Hsp as [Hopen Hsp]. cbn [ttype tvalue tk] in Hopen.
   assert (Hne : kvs <> []) by (destruct kvs; [discriminate | discriminate]).
-  assert (Hall : forall kv, In kv kvs -> (esize (snd kv) < n)%nat /\ wp (snd kv) = true).
+  assert (Hall : forall kv, In kv kvs -> (esize (snd kv) < n)%nat /\ wp (snd kv) = true /\ npos (snd kv) = true).
   { intros kv Hx. split; [pose proof (esize_in_kvs kv kvs Hx); cbn [esize] in Hsz; lia|].
-    match goal with Hf : forallb _ kvs = true |- _ => rewrite forallb_forall in Hf; specialize (Hf kv Hx); apply andb_true_iff in Hf; apply Hf end. }
+    match goal with Hf : forallb _ kvs = true |- _ => rewrite forallb_forall in Hf; specialize (Hf kv Hx); apply andb_true_iff in Hf; exact Hf end. }
   change (map (fun kv : bool * bytes * expr =>
                  tk (if fst (fst kv) then tQuotedIdentifier else tUnquotedIdentifier) (snd (fst kv))
                  :: tk tColon (str ":") :: render (snd kv)) kvs) with (map kv_tokens kvs) in Hsp.
@@ -868,7 +885,7 @@ Qed.
 
 
 Definition dot_head (e : expr) : bool :=
-  match head e with HIdent | HQuoted | HMulti | HStar => true | _ => false end.
+  match head e with HIdent | HQuoted | HMulti | HMultiStar | HStar => true | _ => false end.
 
 Lemma dot_ok x bp i : (esize x < n)%nat -> wp x = true -> bp < lmin x -> dot_head x = true ->
   Spell i (render x) -> follow (i + nE x) (Z.min bp (rl x)) ->
@@ -881,14 +898,15 @@ Proof.
   (* the three cases in which the right-hand side is read by parseExpression *)
   assert (Direct : forall ty v tl', render (lhead x) = tk ty v :: tl' ->
              (tok_eqb ty tQuotedIdentifier || tok_eqb ty tUnquotedIdentifier || tok_eqb ty tStar) = true ->
+             npos x = true ->
              exists F, parseDotRHS ts (PEf F) (CEf F) bp i = Ok (compile x, (i + nE x)%nat)).
-  { intros ty v tl' Hrl Hty. destruct (PE_whole x bp i Hsz Hw Hbp Hsp Hf) as [F HF]. exists F.
+  { intros ty v tl' Hrl Hty Hnp. destruct (PE_whole x bp i Hsz Hw Hnp Hbp Hsp Hf) as [F HF]. exists F.
     unfold parseDotRHS. rewrite Hr, Hrl in Hsp. cbn [app] in Hsp. apply Spell_cons in Hsp as [H0 _].
     rewrite (tokat_current _ _ _ H0). cbn [bind ttype tk]. rewrite Hty.
     change (bp_of site_parseDotRHS_parseExpression tUnknown bp) with bp. exact HF. }
   destruct (lhead x) as [q name | | lv | s0 | x0 | es | kvs | fname args | x0 | [l|] i0 | [l|] a b c r | [l|] r | [l|] r
                  | [l|] c r | [l|] r | l r | l r | l r | l r | op l r] eqn:Eh; cbn [head lchild] in *; try discriminate.
-  - (* identifier *) destruct q; eapply Direct; try reflexivity.
+  - (* identifier *) destruct q; eapply Direct; try reflexivity; unfold npos; rewrite Hhd; reflexivity.
   - (* multi-select list *)
     assert (Hm : Spell i (render (EMSList es))) by (rewrite Hr in Hsp; apply Spell_app in Hsp; apply Hsp).
     destruct (multiselect_list_ok es i Hwh ltac:(lia) Hm) as [F1 HF1].
@@ -921,7 +939,7 @@ Proof.
     rewrite (msh_loop_mono ts (PEf F1) (PEf (Nat.max F1 F2)) (pe_le_F F1 _ (Nat.le_max_l _ _)) _ _ _ _ HF1). cbn [bind].
     change (bp_of site_parseDotRHS_continueExpression2 tUnknown bp) with bp.
     apply (CEf_mono F2 _ _ _ _ _ (Nat.le_max_r _ _) HF2).
-  - (* prefix object wildcard *) eapply Direct; reflexivity.
+  - (* prefix object wildcard *) eapply Direct; try reflexivity. unfold npos; rewrite Hhd; reflexivity.
 Qed.
 
 
@@ -947,11 +965,13 @@ Proof.
     destruct Hsz as [Hsz|]; [|discriminate]. bsplit.
     match goal with Hw : wp x = true, Hl : (p <? lmin x) = true, Hh : _ = true |- _ =>
       rename Hw into Hwx; rename Hl into Hlx; rename Hh into Hhx end.
-    destruct (PE_whole x p i Hsz Hwx ltac:(lia) Hsp Hf) as [F HF]. exists F.
+    assert (Hnpx : npos x = true) by (unfold npos; destruct (head x); try discriminate; reflexivity).
+    destruct (PE_whole x p i Hsz Hwx Hnpx ltac:(lia) Hsp Hf) as [F HF]. exists F.
     destruct (render_lhead x) as [tl Hr]. pose proof (head_lhead x) as Hhd. pose proof (lchild_lhead x) as Hlc.
     rewrite Hhd in Hhx. rewrite Hr in Hsp. unfold parseProjectionRHS.
     destruct (lhead x) as [q name | | lv | s0 | x0 | es | kvs | fname args | x0 | [l|] i0 | [l|] a b c r | [l|] r | [l|] r
-                 | [l|] c r | [l|] r | l r | l r | l r | l r | op l r] eqn:Eh; cbn [head lchild] in *; try discriminate.
+                 | [l|] c r | [l|] r | l r | l r | l r | l r | op l r] eqn:Eh; cbn [head lchild] in *; try discriminate;
+      try (destruct (star_list es); discriminate).
     + destruct q; discriminate.
     + (* [i] *) cbn [render app] in Hsp. spell_facts Hsp.
       rewrite (tokat_current _ _ _ T0). cbn [bind]. change (binding_power tLbracket <? projection_stop) with false.
@@ -988,9 +1008,9 @@ Qed.
 Definition NudOk (e : expr) (i : nat) : Prop :=
   exists F t, lookaheadToken ts i 0 = Ok t /\ nud ts (PEf F) (CEf F) t (S i) = Ok (compile e, (i + nE e)%nat).
 
-Lemma StE_of_nud e : (forall i, wp e = true -> Spell i (render e) -> follow (i + nE e) (rl e) -> NudOk e i) -> StE e.
+Lemma StE_of_nud e : (forall i, wp e = true -> npos e = true -> Spell i (render e) -> follow (i + nE e) (rl e) -> NudOk e i) -> StE e.
 Proof.
-  intros Hn bp i r Hw Hbp Hsp Hf Hce. destruct (Hn i Hw Hsp Hf) as [F [t [Hl Hnud]]].
+  intros Hn bp i r Hw Hnp Hbp Hsp Hf Hce. destruct (Hn i Hw Hnp Hsp Hf) as [F [t [Hl Hnud]]].
   pose proof (render_nonempty e) as Hne. destruct (render e) as [|t0 tl] eqn:Er; [congruence|].
   apply Spell_cons in Hsp as [H0 _].
   apply (PE_nud bp i (ttype t0) (tvalue t0) (compile e) (i + nE e)%nat r H0); [|exact Hce].
@@ -999,7 +1019,7 @@ Qed.
 
 Lemma nud_ident q name : StE (EIdent q name).
 Proof.
-  apply StE_of_nud. intros i Hw Hsp Hf. unfold NudOk, nE in *. cbn [render] in *. destruct q; cbn [length] in *.
+  apply StE_of_nud. intros i Hw Hnp Hsp Hf. unfold NudOk, nE in *. cbn [render] in *. destruct q; cbn [length] in *.
   - apply Spell_cons in Hsp as [H0 _]. cbn [ttype tvalue tk] in H0. destruct (tokat_token _ _ _ H0) as [t [T1 [T2 T3]]].
     exists 0%nat, t. split; [exact T1|]. unfold nud. rewrite T2.
     destruct Hf as [fty [fv [Ht Hp]]]. replace (i + 1)%nat with (S i) in * by lia.
@@ -1007,38 +1027,39 @@ Proof.
     destruct (tok_eqb fty tLparen) eqn:Efp.
     + exfalso. assert (fty = tLparen) by (destruct fty; try discriminate; reflexivity). subst.
       cbn [rl] in Hp. change (binding_power tLparen) with lvl_call in Hp. lia.
-    + rewrite T3. reflexivity.
+    + cbn [veq] in T3. rewrite T3. reflexivity.
   - apply Spell_cons in Hsp as [H0 _]. cbn [ttype tvalue tk] in H0. destruct (tokat_token _ _ _ H0) as [t [T1 [T2 T3]]].
-    exists 0%nat, t. split; [exact T1|]. unfold nud. rewrite T2, T3. replace (i + 1)%nat with (S i) by lia. reflexivity.
+    cbn [veq] in T3. exists 0%nat, t. split; [exact T1|]. unfold nud. rewrite T2, T3. replace (i + 1)%nat with (S i) by lia. reflexivity.
 Qed.
 
 Lemma nud_current : StE ECurrent.
 Proof.
-  apply StE_of_nud. intros i Hw Hsp Hf. unfold NudOk, nE in *. cbn [render length] in *.
+  apply StE_of_nud. intros i Hw Hnp Hsp Hf. unfold NudOk, nE in *. cbn [render length] in *.
   apply Spell_cons in Hsp as [H0 _]. cbn [ttype tvalue tk] in H0. destruct (tokat_token _ _ _ H0) as [t [T1 [T2 T3]]].
   exists 0%nat, t. split; [exact T1|]. unfold nud. rewrite T2. replace (i + 1)%nat with (S i) by lia. reflexivity.
 Qed.
 
 Lemma nud_lit v : StE (ELit v).
 Proof.
-  apply StE_of_nud. intros i Hw Hsp Hf. unfold NudOk, nE in *. cbn [render length wp] in *.
+  apply StE_of_nud. intros i Hw Hnp Hsp Hf. unfold NudOk, nE in *. cbn [render length wp] in *.
   apply Spell_cons in Hsp as [H0 _]. cbn [ttype tvalue tk] in H0. destruct (tokat_token _ _ _ H0) as [t [T1 [T2 T3]]].
-  exists 0%nat, t. split; [exact T1|]. unfold nud. rewrite T2, T3, (lit_ok v Hw). replace (i + 1)%nat with (S i) by lia. reflexivity.
+  cbn [veq] in T3. exists 0%nat, t. split; [exact T1|]. unfold nud. rewrite T2, T3, (lit_ok v Hw). replace (i + 1)%nat with (S i) by lia. reflexivity.
 Qed.
 
 Lemma nud_raw s0 : StE (ERaw s0).
 Proof.
-  apply StE_of_nud. intros i Hw Hsp Hf. unfold NudOk, nE in *. cbn [render length] in *.
+  apply StE_of_nud. intros i Hw Hnp Hsp Hf. unfold NudOk, nE in *. cbn [render length] in *.
   apply Spell_cons in Hsp as [H0 _]. cbn [ttype tvalue tk] in H0. destruct (tokat_token _ _ _ H0) as [t [T1 [T2 T3]]].
   exists 0%nat, t. split; [exact T1|]. unfold nud. rewrite T2, T3. replace (i + 1)%nat with (S i) by lia. reflexivity.
 Qed.
 
 Lemma nud_paren x : (esize x < n)%nat -> StE (EParen x).
 Proof.
-  intros Hsz. apply StE_of_nud. intros i Hw Hsp Hf. unfold NudOk, nE in *. cbn [render wp] in *.
+  intros Hsz. apply StE_of_nud. intros i Hw _ Hsp Hf. unfold NudOk, nE in *. cbn [render wp] in *.
+  apply andb_true_iff in Hw as [Hw Hnp].
   apply Spell_cons in Hsp as [H0 Hsp]. cbn [ttype tvalue tk] in H0. destruct (tokat_token _ _ _ H0) as [t [T1 [T2 T3]]].
   apply Spell_app in Hsp as [Hx Hrp]. apply Spell_cons in Hrp as [Hrp _]. cbn [ttype tvalue tk] in Hrp.
-  destruct (PE_whole x 0 (S i) Hsz Hw (lmin_pos x) Hx (follow_close _ _ _ x Hrp eq_refl)) as [F HF].
+  destruct (PE_whole x 0 (S i) Hsz Hw Hnp (lmin_pos x) Hx (follow_close _ _ _ x Hrp eq_refl)) as [F HF].
   exists F, t. split; [exact T1|]. unfold nud. rewrite T2.
   change (bp_of site_nud_tLparen_parseExpression tUnknown 0) with 0. rewrite HF. cbn [bind].
   unfold nE. rewrite (tokat_match _ _ _ Hrp). cbn [bind compile length]. rewrite app_length. cbn [length]. f_equal. f_equal. lia.
@@ -1046,10 +1067,10 @@ Qed.
 
 Lemma nud_not x : (esize x < n)%nat -> StE (ENot x).
 Proof.
-  intros Hsz. apply StE_of_nud. intros i Hw Hsp Hf. unfold NudOk, nE in *. cbn [render wp rl] in *. bsplit.
+  intros Hsz. apply StE_of_nud. intros i Hw _ Hsp Hf. unfold NudOk, nE in *. cbn [render wp rl] in *. bsplit.
   apply Spell_cons in Hsp as [Hb Hx]. cbn [ttype tvalue tk] in Hb. destruct (tokat_token _ _ _ Hb) as [t [T1 [T2 T3]]].
   cbn [length] in Hf. replace (i + S (length (render x)))%nat with (S i + nE x)%nat in Hf by (unfold nE; lia).
-  destruct (PE_whole x (binding_power tNot) (S i) Hsz ltac:(assumption) ltac:(change (binding_power tNot) with lvl_not; lia) Hx Hf) as [F HF].
+  destruct (PE_whole x (binding_power tNot) (S i) Hsz ltac:(assumption) ltac:(assumption) ltac:(change (binding_power tNot) with lvl_not; lia) Hx Hf) as [F HF].
   exists F, t. split; [exact T1|]. unfold nud. rewrite T2.
   change (bp_of site_nud_tNot_parseExpression tUnknown 0) with (binding_power tNot). rewrite HF. cbn [bind compile length].
   unfold nE. f_equal. f_equal. lia.
@@ -1058,16 +1079,16 @@ Qed.
 
 (* ---- filters ---- *)
 Lemma filter_ok lnode c r i :
-  (esize c < n)%nat -> ((rsz r < n)%nat \/ r = RNone) -> wp c = true -> rhs_okb r lvl_filter = true ->
+  (esize c < n)%nat -> ((rsz r < n)%nat \/ r = RNone) -> wp c = true -> npos c = true -> rhs_okb r lvl_filter = true ->
   Spell i (render c ++ [tk tRbracket (str "]")] ++ rrhs r) ->
   follow (i + length (render c ++ [tk tRbracket (str "]")] ++ rrhs r)) (rlr r lvl_filter) ->
   exists F, parseFilter ts (PEf F) (CEf F) lnode i =
             Ok (mk ASTFilterProjection NVNone [lnode; crhs r; compile c],
                 (i + length (render c ++ [tk tRbracket (str "]")] ++ rrhs r))%nat).
 Proof.
-  intros Hsc Hsr Hwc Hok Hsp Hf.
+  intros Hsc Hsr Hwc Hnc Hok Hsp Hf.
   apply Spell_app in Hsp as [Hc Hsp]. cbn [app] in Hsp. apply Spell_cons in Hsp as [Hrb Hr]. cbn [ttype tvalue tk] in Hrb.
-  destruct (PE_whole c 0 i Hsc Hwc (lmin_pos c) Hc (follow_close _ _ _ c Hrb eq_refl)) as [F1 HF1]. unfold nE in *.
+  destruct (PE_whole c 0 i Hsc Hwc Hnc (lmin_pos c) Hc (follow_close _ _ _ c Hrb eq_refl)) as [F1 HF1]. unfold nE in *.
   set (j := S (i + length (render c))) in *.
   assert (Hend : (i + length (render c ++ [tk tRbracket (str "]")] ++ rrhs r))%nat = (j + length (rrhs r))%nat).
   { rewrite !app_length. cbn [length]. unfold j. lia. }
@@ -1102,12 +1123,12 @@ Lemma index_tail lnode i z : in_int64 z = true ->
 Proof. intros Hz H. rewrite (parse_index i z Hz H). reflexivity. Qed.
 
 Lemma slice_tail lnode i a b c r :
-  opt_int64 a = true -> opt_int64 b = true -> opt_int64 c = true ->
+  opt_int64 a = true -> opt_int64 b = true -> opt_int64 (cjoin c) = true ->
   ((rsz r < n)%nat \/ r = RNone) -> rhs_okb r lvl_star = true ->
   Spell i (slice_tokens a b c ++ rrhs r) ->
   follow (i + length (slice_tokens a b c ++ rrhs r)) (rlr r lvl_star) ->
   exists F, ('(rgt, i1) <- parseIndexExpression ts i ;; projectIfSlice ts (PEf F) (CEf F) lnode rgt i1) =
-            Ok (N0 ASTProjection [N0 ASTIndexExpression [lnode; Node ASTSlice (NVSlice a b c) []]; crhs r],
+            Ok (N0 ASTProjection [N0 ASTIndexExpression [lnode; Node ASTSlice (NVSlice a b (cjoin c)) []]; crhs r],
                 (i + length (slice_tokens a b c ++ rrhs r))%nat).
 Proof.
   intros Ha Hb Hc Hsr Hok Hsp Hf. apply Spell_app in Hsp as [Hs Hr]. rewrite app_length, Nat.add_assoc in *.
@@ -1118,7 +1139,7 @@ Qed.
 
 Lemma nud_index z : StE (EIndex None z).
 Proof.
-  apply StE_of_nud. intros i Hw Hsp Hf. unfold NudOk, nE in *. cbn [render wp app] in *.
+  apply StE_of_nud. intros i Hw Hnp Hsp Hf. unfold NudOk, nE in *. cbn [render wp app] in *.
   spell_facts Hsp. destruct (tokat_token _ _ _ T0) as [t [L1 [L2 L3]]].
   exists 0%nat, t. split; [exact L1|]. unfold nud. rewrite L2. rewrite (tokat_current _ _ _ T1). cbn [bind].
   change (tok_eqb tNumber tNumber || tok_eqb tNumber tColon) with true. cbn iota.
@@ -1129,7 +1150,7 @@ Qed.
 
 Lemma nud_slice a b c r : ((rsz r < n)%nat \/ r = RNone) -> StE (ESlice None a b c r).
 Proof.
-  intros Hsr. apply StE_of_nud. intros i Hw Hsp Hf. unfold NudOk, nE in *. rewrite render_slice in *. cbn [olhs app] in *.
+  intros Hsr. apply StE_of_nud. intros i Hw Hnp Hsp Hf. unfold NudOk, nE in *. rewrite render_slice in *. cbn [olhs app] in *.
   cbn [wp rl] in *. rewrite rhs_okb_of in Hw. rewrite rlr_of in Hf. bsplit. cbn [length] in *.
   apply Spell_cons in Hsp as [T0 Hsp]. cbn [ttype tvalue tk] in T0. destruct (tokat_token _ _ _ T0) as [t [L1 [L2 L3]]].
   replace (i + S (length (slice_tokens a b c ++ rrhs r)))%nat with (S i + length (slice_tokens a b c ++ rrhs r))%nat in * by lia.
@@ -1145,7 +1166,7 @@ Qed.
 
 Lemma nud_listproj r : ((rsz r < n)%nat \/ r = RNone) -> StE (EListProj None r).
 Proof.
-  intros Hsr. apply StE_of_nud. intros i Hw Hsp Hf. unfold NudOk, nE in *. rewrite render_listproj in *. cbn [olhs app] in *.
+  intros Hsr. apply StE_of_nud. intros i Hw Hnp Hsp Hf. unfold NudOk, nE in *. rewrite render_listproj in *. cbn [olhs app] in *.
   cbn [wp rl] in *. rewrite rhs_okb_of in Hw. rewrite rlr_of in Hf. cbn [length andb] in *.
   apply Spell_cons in Hsp as [T0 Hsp]. apply Spell_cons in Hsp as [T1 Hsp]. apply Spell_cons in Hsp as [T2 Hsp].
   cbn [ttype tvalue tk] in *. destruct (tokat_token _ _ _ T0) as [t [L1 [L2 L3]]].
@@ -1160,7 +1181,7 @@ Qed.
 
 Lemma nud_flatten r : ((rsz r < n)%nat \/ r = RNone) -> StE (EFlatten None r).
 Proof.
-  intros Hsr. apply StE_of_nud. intros i Hw Hsp Hf. unfold NudOk, nE in *. rewrite render_flatten in *. cbn [olhs app] in *.
+  intros Hsr. apply StE_of_nud. intros i Hw Hnp Hsp Hf. unfold NudOk, nE in *. rewrite render_flatten in *. cbn [olhs app] in *.
   cbn [wp rl] in *. rewrite rhs_okb_of in Hw. rewrite rlr_of in Hf. cbn [length andb] in *.
   apply Spell_cons in Hsp as [T0 Hsp]. cbn [ttype tvalue tk] in *. destruct (tokat_token _ _ _ T0) as [t [L1 [L2 L3]]].
   replace (i + S (length (rrhs r)))%nat with (S i + length (rrhs r))%nat in * by lia.
@@ -1171,18 +1192,18 @@ Qed.
 
 Lemma nud_filter c r : (esize c < n)%nat -> ((rsz r < n)%nat \/ r = RNone) -> StE (EFilter None c r).
 Proof.
-  intros Hsc Hsr. apply StE_of_nud. intros i Hw Hsp Hf. unfold NudOk, nE in *. rewrite render_filter in *. cbn [olhs] in *. rewrite ?app_nil_l in *.
+  intros Hsc Hsr. apply StE_of_nud. intros i Hw Hnp Hsp Hf. unfold NudOk, nE in *. rewrite render_filter in *. cbn [olhs] in *. rewrite ?app_nil_l in *.
   cbn [wp rl] in *. rewrite rhs_okb_of in Hw. rewrite rlr_of in Hf. bsplit. cbn [length] in *.
   apply Spell_cons in Hsp as [T0 Hsp]. cbn [ttype tvalue tk] in *. destruct (tokat_token _ _ _ T0) as [t [L1 [L2 L3]]].
   replace (i + S (length (render c ++ [tk tRbracket (str "]")] ++ rrhs r)))%nat
     with (S i + length (render c ++ [tk tRbracket (str "]")] ++ rrhs r))%nat in * by lia.
-  destruct (filter_ok identity_node c r (S i) Hsc Hsr ltac:(assumption) ltac:(assumption) Hsp Hf) as [F HF].
+  destruct (filter_ok identity_node c r (S i) Hsc Hsr ltac:(assumption) ltac:(assumption) ltac:(assumption) Hsp Hf) as [F HF].
   exists F, t. split; [exact L1|]. unfold nud. rewrite L2. rewrite HF. reflexivity.
 Qed.
 
 Lemma nud_valproj r : ((rsz r < n)%nat \/ r = RNone) -> StE (EValProj None r).
 Proof.
-  intros Hsr. apply StE_of_nud. intros i Hw Hsp Hf. unfold NudOk, nE in *. rewrite render_valproj_none in *.
+  intros Hsr. apply StE_of_nud. intros i Hw Hnp Hsp Hf. unfold NudOk, nE in *. rewrite render_valproj_none in *.
   cbn [wp rl] in *. rewrite rhs_okb_of in Hw. rewrite rlr_of in Hf. cbn [length andb] in *.
   apply Spell_cons in Hsp as [T0 Hsp]. cbn [ttype tvalue tk] in *. destruct (tokat_token _ _ _ T0) as [t [L1 [L2 L3]]].
   replace (i + S (length (rrhs r)))%nat with (S i + length (rrhs r))%nat in * by lia.
@@ -1200,14 +1221,14 @@ Qed.
 
 Lemma nud_mshash kvs : (esize (EMSHash kvs) <= n)%nat -> StE (EMSHash kvs).
 Proof.
-  intros Hsz. apply StE_of_nud. intros i Hw Hsp Hf. unfold NudOk.
+  intros Hsz. apply StE_of_nud. intros i Hw Hnp Hsp Hf. unfold NudOk.
   assert (Hopen : tokat i tLbrace (str "{")) by (cbn [render] in Hsp; apply Spell_cons in Hsp as [T0 _]; exact T0).
   destruct (tokat_token _ _ _ Hopen) as [t [L1 [L2 L3]]].
   cbn [wp] in Hw. bsplit.
   assert (Hne : kvs <> []) by (destruct kvs; [discriminate | discriminate]).
-  assert (Hall : forall kv, In kv kvs -> (esize (snd kv) < n)%nat /\ wp (snd kv) = true).
+  assert (Hall : forall kv, In kv kvs -> (esize (snd kv) < n)%nat /\ wp (snd kv) = true /\ npos (snd kv) = true).
   { intros kv Hx. split; [pose proof (esize_in_kvs kv kvs Hx); cbn [esize] in Hsz; lia|].
-    match goal with Hfa : forallb _ kvs = true |- _ => rewrite forallb_forall in Hfa; specialize (Hfa kv Hx); apply andb_true_iff in Hfa; apply Hfa end. }
+    match goal with Hfa : forallb _ kvs = true |- _ => rewrite forallb_forall in Hfa; specialize (Hfa kv Hx); apply andb_true_iff in Hfa; exact Hfa end. }
   cbn [render] in Hsp. apply Spell_cons in Hsp as [_ Hsp].
   change (map (fun kv : bool * bytes * expr =>
                  tk (if fst (fst kv) then tQuotedIdentifier else tUnquotedIdentifier) (snd (fst kv))
@@ -1229,16 +1250,16 @@ Qed.
 
 Lemma nud_mslist es : (esize (EMSList es) <= n)%nat -> StE (EMSList es).
 Proof.
-  intros Hsz. apply StE_of_nud. intros i Hw Hsp Hf. unfold NudOk.
+  intros Hsz. apply StE_of_nud. intros i Hw Hnp Hsp Hf. unfold NudOk.
   assert (Hopen : tokat i tLbracket (str "[")) by (cbn [render] in Hsp; apply Spell_cons in Hsp as [T0 _]; exact T0).
   destruct (tokat_token _ _ _ Hopen) as [t [L1 [L2 L3]]].
   cbn [wp] in Hw. bsplit.
   match goal with Hx : negb _ = true |- _ => rename Hx into Hshape end.
-  match goal with Hx : forallb wp es = true |- _ => rename Hx into Hwes end.
+  match goal with Hx : forallb _ es = true |- _ => rename Hx into Hwes end.
   assert (Hne : es <> []) by (destruct es; [discriminate | discriminate]).
-  assert (Hall : forall x, In x es -> (esize x < n)%nat /\ wp x = true).
+  assert (Hall : forall x, In x es -> (esize x < n)%nat /\ wp x = true /\ npos x = true).
   { intros x Hx. split; [pose proof (esize_in_list x es Hx); cbn [esize] in Hsz; lia|].
-    rewrite forallb_forall in Hwes. apply Hwes. exact Hx. }
+    rewrite forallb_forall in Hwes. specialize (Hwes x Hx). apply andb_true_iff in Hwes. exact Hwes. }
   cbn [render] in Hsp. apply Spell_cons in Hsp as [_ Hsp].
   assert (Hlen : (length es <= S (length ts))%nat).
   { pose proof (sep_by_length render [tk tComma (str ",")] es render_nonempty) as L.
@@ -1262,7 +1283,7 @@ Proof.
     assert (Hnext : exists ty v, tokat (S (S i)) ty v /\ ty <> tRbracket).
     { destruct (after_star e1 t1 tl1 Er1 Hty Hw1) as [[He1 Htl]|[t2 [tl' [Htl [Hn1 Hn2]]]]].
       - subst e1 tl1. destruct rest as [|e2 rest'].
-        + cbn in Hshape. discriminate.
+        + unfold npos in Hnp. cbn in Hnp. discriminate.
         + cbn [map sep_by] in Hsp. rewrite Er1 in Hsp. cbn [app] in Hsp.
           apply Spell_cons in Hsp as [_ Hsp]. apply Spell_cons in Hsp as [T2 _]. cbn [ttype tvalue tk] in T2.
           eexists _, _. split; [exact T2 | discriminate].
@@ -1295,7 +1316,7 @@ Lemma led_binary (mkE : expr -> expr -> expr) (ty : tokType) (txt : bytes) (lvl 
   (forall l r, lchild (mkE l r) = Some l) ->
   (forall l r, render (mkE l r) = render l ++ [tk ty txt] ++ render r) ->
   (forall l r, compile (mkE l r) = Node nd nv [compile l; compile r]) ->
-  (forall l r, wp (mkE l r) = true -> wp r = true /\ lvl < lmin r) ->
+  (forall l r, wp (mkE l r) = true -> wp r = true /\ npos r = true /\ lvl < lmin r) ->
   (forall l r, rl (mkE l r) = Z.min lvl (rl r)) ->
   (forall l r, lmin (mkE l r) <= lvl) ->
   binding_power ty = lvl ->
@@ -1304,13 +1325,13 @@ Lemma led_binary (mkE : expr -> expr -> expr) (ty : tokType) (txt : bytes) (lvl 
   forall l r, (esize r < n)%nat -> StStep (mkE l r).
 Proof.
   intros Hlc Hrd Hcp Hwp Hrl Hlm Hbp Hled l r Hsz. apply (StStep_of_led _ l (Hlc l r)). intros i Hw Hsp Hf.
-  destruct (Hwp l r Hw) as [Hwr Hlr]. unfold LedOk, nE in *. rewrite Hrd in *.
+  destruct (Hwp l r Hw) as [Hwr [Hnr Hlr]]. unfold LedOk, nE in *. rewrite Hrd in *.
   assert (Hend : (i + length (render l ++ [tk ty txt] ++ render r))%nat = (S (i + length (render l)) + length (render r))%nat).
   { rewrite !app_length. cbn [length]. lia. }
   rewrite Hend in *. clear Hend.
   apply Spell_app in Hsp as [_ Hsp]. cbn [app] in Hsp. apply Spell_cons in Hsp as [Top Hr]. cbn [ttype tvalue tk] in Top.
   rewrite Hrl in Hf.
-  destruct (PE_whole r lvl (S (i + length (render l))) Hsz Hwr Hlr Hr Hf) as [F HF].
+  destruct (PE_whole r lvl (S (i + length (render l))) Hsz Hwr Hnr Hlr Hr Hf) as [F HF].
   exists F, ty, txt. split; [exact Top|]. split; [rewrite Hbp; apply Hlm|].
   rewrite Hled. unfold nE in HF. rewrite HF. cbn [bind]. rewrite Hcp. reflexivity.
 Qed.
@@ -1319,19 +1340,19 @@ Qed.
 Lemma step_pipe l r : (esize r < n)%nat -> StStep (EPipe l r).
 Proof.
   apply (led_binary EPipe tPipe (str "|") lvl_pipe ASTPipe NVNone); try reflexivity.
-  - intros l0 r0 H. cbn [wp] in H. bsplit. split; [assumption | lia].
+  - intros l0 r0 H. cbn [wp] in H. bsplit. split; [assumption | split; [assumption | lia]].
   - intros l0 r0. cbn [lmin]. lia.
 Qed.
 Lemma step_or l r : (esize r < n)%nat -> StStep (EOr l r).
 Proof.
   apply (led_binary EOr tOr (str "||") lvl_or ASTOrExpression NVNone); try reflexivity.
-  - intros l0 r0 H. cbn [wp] in H. bsplit. split; [assumption | lia].
+  - intros l0 r0 H. cbn [wp] in H. bsplit. split; [assumption | split; [assumption | lia]].
   - intros l0 r0. cbn [lmin]. lia.
 Qed.
 Lemma step_and l r : (esize r < n)%nat -> StStep (EAnd l r).
 Proof.
   apply (led_binary EAnd tAnd (str "&&") lvl_and ASTAndExpression NVNone); try reflexivity.
-  - intros l0 r0 H. cbn [wp] in H. bsplit. split; [assumption | lia].
+  - intros l0 r0 H. cbn [wp] in H. bsplit. split; [assumption | split; [assumption | lia]].
   - intros l0 r0. cbn [lmin]. lia.
 Qed.
 Lemma step_cmp op l r : (esize r < n)%nat -> StStep (ECmp op l r).
@@ -1339,7 +1360,7 @@ Proof.
   apply (led_binary (ECmp op) (cmp_tok op)
            (match op with CmpEQ => str "==" | CmpNE => str "!=" | CmpLT => str "<" | CmpLE => str "<=" | CmpGT => str ">" | CmpGE => str ">=" end)
            lvl_cmp ASTComparator (NVTok (cmp_tok op))); try reflexivity.
-  - intros l0 r0 H. cbn [wp] in H. bsplit. split; [assumption | lia].
+  - intros l0 r0 H. cbn [wp] in H. bsplit. split; [assumption | split; [assumption | lia]].
   - intros l0 r0. cbn [lmin]. lia.
   - destruct op; reflexivity.
   - intros F n0 i. destruct op; reflexivity.
@@ -1446,7 +1467,7 @@ Proof.
   { rewrite app_length. cbn [length]. lia. }
   rewrite Hend in *. clear Hend.
   apply Spell_app in Hsp as [_ Hsp]. apply Spell_cons in Hsp as [T0 Hsp]. cbn [ttype tvalue tk] in *.
-  destruct (filter_ok (compile l) c r _ Hsc Hsr ltac:(assumption) ltac:(assumption) Hsp Hf) as [F HF].
+  destruct (filter_ok (compile l) c r _ Hsc Hsr ltac:(assumption) ltac:(assumption) ltac:(assumption) Hsp Hf) as [F HF].
   exists F, tFilter, (str "[?"). split; [exact T0|]. split; [cbn [lmin]; change (binding_power tFilter) with lvl_filter; lia|].
   unfold led. rewrite HF. reflexivity.
 Qed.
@@ -1483,10 +1504,10 @@ Proof.
   match goal with Hx : forallb _ args = true |- _ => rename Hx into Hwa end.
   apply Spell_cons in Hsp as [Tn Hsp]. apply Spell_cons in Hsp as [Tp Hsp]. cbn [ttype tvalue tk] in *.
   replace (i + 1)%nat with (S i) by lia.
-  assert (Hall : forall a, In a args -> (esize (arg_expr a) < n)%nat /\ wp (arg_expr a) = true).
+  assert (Hall : forall a, In a args -> (esize (arg_expr a) < n)%nat /\ wp (arg_expr a) = true /\ npos (arg_expr a) = true).
   { intros a Ha. split.
     - pose proof (esize_in_args a args Ha) as Hs. cbn [esize] in Hsz. destruct a; cbn [arg_expr SpecFacts.arg_expr] in *; lia.
-    - rewrite forallb_forall in Hwa. specialize (Hwa a Ha). destruct a; exact Hwa. }
+    - rewrite forallb_forall in Hwa. specialize (Hwa a Ha). destruct a; cbn [arg_expr SpecFacts.arg_expr]; apply andb_true_iff in Hwa; exact Hwa. }
   (* the callee is the unquoted identifier just before "(" *)
   assert (Hprev : (if Nat.ltb (S (S i)) 2 then Panic else nth_or_panic ts (S (S i) - 2)) = Ok (match nth_error ts i with Some t => t | None => tk tUnknown [] end)
                   /\ exists t, nth_error ts i = Some t /\ ttype t = tUnquotedIdentifier).
@@ -1595,15 +1616,15 @@ End Tokens.
 (* Parse on any token list that spells a well-precedenced tree (types and values
    of the tokens; positions are free) and ends in its only tEOF: the AST of the tree *)
 Theorem parse_tokens_complete (e : expr) (ts : list token) :
-  wp e = true -> wf_tokens ts ->
+  wp e = true -> npos e = true -> wf_tokens ts ->
   Spell ts 0 (render e ++ [tk tEOF []]) ->
   parse_tokens ts = Ok (compile e).
 Proof.
-  intros Hw Hwf Hsp. apply Spell_app in Hsp as [He Heof]. apply Spell_cons in Heof as [Heof _]. cbn [ttype tvalue tk] in Heof.
+  intros Hw Hnp Hwf Hsp. apply Spell_app in Hsp as [He Heof]. apply Spell_cons in Heof as [Heof _]. cbn [ttype tvalue tk] in Heof.
   rewrite Nat.add_0_l in Heof.
   destruct (parser_complete_all ts (S (esize e))) as [HE _].
   assert (Hpe : PE ts 0 0 (compile e, nE e)).
-  { apply (HE e ltac:(lia) 0 0%nat (compile e, nE e) Hw (lmin_pos e) He).
+  { apply (HE e ltac:(lia) 0 0%nat (compile e, nE e) Hw Hnp (lmin_pos e) He).
     - exists tEOF, []. split; [exact Heof|]. pose proof (rl_pos e). change (binding_power tEOF) with 0. lia.
     - apply (CE_stop ts _ _ _ tEOF [] Heof). change (binding_power tEOF) with 0. lia. }
   destruct Hpe as [F HF]. unfold PEf in HF.
@@ -1678,10 +1699,10 @@ Proof.
 Qed.
 
 (* the parser on the spelling of a well-precedenced tree builds the AST of that tree *)
-Theorem parse_render e : wp e = true -> parse_tokens (render e ++ [tk tEOF []]) = Ok (compile e).
+Theorem parse_render e : wp e = true -> npos e = true -> parse_tokens (render e ++ [tk tEOF []]) = Ok (compile e).
 Proof.
-  intros Hw. apply (parse_tokens_complete e _ Hw (render_eof_wf e)).
-  intros k t Hk. exists t. rewrite Nat.add_0_l. repeat split. exact Hk.
+  intros Hw Hnp. apply (parse_tokens_complete e _ Hw Hnp (render_eof_wf e)).
+  intros k t Hk. exists t. rewrite Nat.add_0_l. split; [exact Hk|]. split; [reflexivity|]. destruct (ttype t); cbn; auto.
 Qed.
 
 End WithNum.
